@@ -46,7 +46,7 @@ SpecStep(t, s, ev) ==
 \* an order record for a request the implementation accepted although the spec refused it
 ForcedOrder(t, s, r) ==
   [type |-> r.type, op |-> r.op, pair |-> r.pair, amount |-> r.amount, limit |-> r.limit, stop |-> r.stop,
-   filled |-> 0, qfilled |-> 0, fee |-> 0, state |-> "open", ab |-> r.ab, ar |-> r.ar, loans |-> {},
+   filled |-> 0, qfilled |-> 0, fee |-> 0, feeB |-> 0, state |-> "open", ab |-> r.ab, ar |-> r.ar, loans |-> {},
    holdRem |-> P(t)!Required(s, r), stopHit |-> FALSE, at |-> s.clock, nfills |-> 0, lastFill |-> 0]
 
 \* the implementation state: logged observables over the spec's hidden variables
@@ -56,7 +56,7 @@ Overlay(t, pre, post, ev) ==
       nl == Len(ob.loans)
       ord(i) == LET base == IF i <= Len(post.orders) THEN post.orders[i] ELSE ForcedOrder(t, pre, ev.arg)
                     x == ob.orders[i] IN
-                [base EXCEPT !.state = x.state, !.filled = x.filled, !.qfilled = x.qfilled, !.fee = x.fee,
+                [base EXCEPT !.state = x.state, !.filled = x.filled, !.qfilled = x.qfilled, !.fee = x.fee, !.feeB = x.feeB,
                              !.loans = ToSet(x.loans),
                              !.nfills = IF i <= Len(pre.orders) /\ x.filled > pre.orders[i].filled
                                         THEN pre.orders[i].nfills + 1
@@ -102,7 +102,7 @@ StepClauses(t, pre, ev) ==
      \cup Cl("Step_BidAsk", \A p \in 1..Len(ob.bidask) : ob.bidask[p] = <<0 - 1, 0 - 1>> \/ ob.bidask[p] = so.bidask[p])
      \cup Cl("Step_Orders", sameOrders /\ \A i \in 1..Min2(Len(ob.orders), Len(post.orders)) :
                  LET x == ob.orders[i]  y == so.orders[i] IN
-                 x.state = y.state /\ x.filled = y.filled /\ x.qfilled = y.qfilled /\ x.fee = y.fee
+                 x.state = y.state /\ x.filled = y.filled /\ x.qfilled = y.qfilled /\ x.fee = y.fee /\ x.feeB = y.feeB
                  /\ ToSet(x.loans) = y.loans)
      \cup Cl("Step_FillOrKill_ShouldFill",
              ~(ev.kind = "bar") \/ Traces[t].cfg.impact \/ \A i \in 1..Min2(Len(ob.orders), Len(post.orders)) :
